@@ -104,6 +104,7 @@ func runC12(ctx *core.Ctx) {
 	c12PutOrder(ctx, "P3")
 	expectedIDReadOnly(ctx, "P7")
 	truncGuard(ctx, "P8", false)
+	indexNilMeansWritten(ctx, "P9")
 	lookupGates(ctx, "LG")
 	ctx.Rule("P6", "digests reach the variable that is compared: a hash Sum call whose result is discarded is given x[:0] of an array x of at least the digest size, so that the digest lands in x; any other argument leaves x unchanged (all zero), the 'already present' comparison can then never succeed, and every Put of present content rewrites a shared data file in place, where a failing source truncates it under the entries that share it", 2)
 	for _, name := range []string{"(*Cache).put", "(*Cache).copyFile"} {
